@@ -178,9 +178,49 @@ pub struct Shards {
     terms: Vec<Vec<String>>,
     replays: Vec<Vec<Value>>,
     next: usize,
+    groups: Vec<Group>,
+}
+
+/// shards of their own (numbered after the regular ones) whose case files start with another
+/// header: cases of another classifier's `case` type wrapped by a module of this property
+struct Group {
+    header: String,
+    terms: Vec<Vec<String>>,
+    replays: Vec<Vec<Value>>,
+    next: usize,
+}
+
+fn write_shard(dir: &Path, k: usize, header: &str, terms: &[String], replays: &[Value]) {
+    let p = dir.join(format!("cases_{}.v", k));
+    let mut f = std::io::BufWriter::new(std::fs::File::create(p).unwrap());
+    writeln!(f, "{}", header).unwrap();
+    writeln!(f, "Set Printing Depth 100000000.\nSet Printing Width 1000000.").unwrap();
+    writeln!(f, "Definition cases : list case := [").unwrap();
+    for (i, t) in terms.iter().enumerate() {
+        writeln!(f, " {}{}", t, if i + 1 < terms.len() { ";" } else { "" }).unwrap();
+    }
+    writeln!(f, "].").unwrap();
+    writeln!(f, "Eval vm_compute in verdicts cases.").unwrap();
+    let p = dir.join(format!("cases_{}.jsonl", k));
+    let mut f = std::io::BufWriter::new(std::fs::File::create(p).unwrap());
+    for r in replays {
+        writeln!(f, "{}", r).unwrap();
+    }
 }
 
 impl Shards {
+    /// `n` further shards with their own header; returns the group's handle
+    pub fn add_group(&mut self, header: &str, n: usize) -> usize {
+        self.groups.push(Group { header: header.to_string(), terms: vec![Vec::new(); n], replays: vec![Vec::new(); n], next: 0 });
+        self.groups.len() - 1
+    }
+    pub fn push_group(&mut self, g: usize, term: String, replays: Vec<Value>) {
+        let gr = &mut self.groups[g];
+        let k = gr.next;
+        gr.next = (gr.next + 1) % gr.terms.len();
+        gr.terms[k].push(term);
+        gr.replays[k].extend(replays);
+    }
     pub fn new(dir: &Path, n: usize, header: &str) -> Self {
         std::fs::create_dir_all(dir).unwrap();
         Shards {
@@ -189,6 +229,7 @@ impl Shards {
             terms: vec![Vec::new(); n],
             replays: vec![Vec::new(); n],
             next: 0,
+            groups: Vec::new(),
         }
     }
     /// add a case to the least recently used shard; `replays` has one record per verdict
@@ -207,20 +248,15 @@ impl Shards {
             if terms.is_empty() {
                 continue;
             }
-            let p = self.dir.join(format!("cases_{}.v", k));
-            let mut f = std::io::BufWriter::new(std::fs::File::create(p).unwrap());
-            writeln!(f, "{}", self.header).unwrap();
-            writeln!(f, "Set Printing Depth 100000000.\nSet Printing Width 1000000.").unwrap();
-            writeln!(f, "Definition cases : list case := [").unwrap();
-            for (i, t) in terms.iter().enumerate() {
-                writeln!(f, " {}{}", t, if i + 1 < terms.len() { ";" } else { "" }).unwrap();
-            }
-            writeln!(f, "].").unwrap();
-            writeln!(f, "Eval vm_compute in verdicts cases.").unwrap();
-            let p = self.dir.join(format!("cases_{}.jsonl", k));
-            let mut f = std::io::BufWriter::new(std::fs::File::create(p).unwrap());
-            for r in &self.replays[k] {
-                writeln!(f, "{}", r).unwrap();
+            write_shard(&self.dir, k, &self.header, terms, &self.replays[k]);
+        }
+        let mut k = self.terms.len();
+        for g in &self.groups {
+            for (j, terms) in g.terms.iter().enumerate() {
+                if !terms.is_empty() {
+                    write_shard(&self.dir, k, &g.header, terms, &g.replays[j]);
+                }
+                k += 1;
             }
         }
         let meta = serde_json::json!({
